@@ -779,6 +779,9 @@ func main() {
 					// One BUILD file, two glob() calls: an exclude pattern that an earlier call of the same Globber used
 					// as its include (only patterns that are compiled, i.e. contain "**", can be remembered by a Globber).
 					for _, ex := range primedExcludes {
+						if len(jb.excl) <= 1 {
+							break // jobs without excludes (larger trees, longer patterns) are include-only
+						}
 						primed := func(inc, e string, h bool) ([]string, string) {
 							g2 := fs.NewGlobber(m, []string{buildFileName})
 							runGlob(g2, root, ex, "", h)
